@@ -24,17 +24,21 @@ What the definitions had to get right (evaluated in `Spec/ComparableIsoCheck.lea
   overwrites the anchor of an earlier one, and a reference is rendered by looking up the id of its target.  Two collected
   structures that share an id on one side but not on the other give different tables (`cx_key`); a reference to a
   structure that is not collected renders as `None` unless its id is the id of a collected structure (`cx_stale_id`);
-* nesting depth (`isoDepth`): the model bounds the recursion of `_render_feature_value` by `|heap| + 1`; two isomorphic
-  sides with heaps of different size and arrays nested deeper than the smaller budget differ (one raises
-  `RuntimeError`) (`cx_depth`).  This is an artefact of the model's budget (Python's limit is the interpreter's
-  recursion limit); within `isoDepth` the statement is budget-free;
+* nesting depth: `ValRel` is indexed by a nesting depth; `Iso.slots` asks for it at *some* depth (`∃ d`), with no
+  reference to the sizes of the heaps: the recursion budget of the model, `2 * |heap| + 2` (two units per level of array
+  nesting), is as good as any larger one (`renderVal_saturated`, `Proofs/ComparableFuel.lean`), so each side may run with
+  its own budget.  (The budget used to be `|heap| + 1`, too small for `[[[]]]` in a heap of four objects, and `Iso` had
+  to bound the depth by `isoDepth = min |heap| |heap'| + 1` — `cx_depth`, repaired in `Model/Comparable.lean`.)  A cyclic
+  nesting of arrays is related to no finite depth, although both sides then fail alike (`RecursionError` in Python,
+  `RuntimeError` in the model); `Properties/C20IsoColl.lean` covers that case with a semantic variant of `Iso`;
 * arrays are compared by content, so an inlined array that comes back from a load as a new object without id is fine;
   `elements = None` (rendered as `None`) is kept apart from `<NULL>`.
 
 A reachable difference found on the way (outside the flat fragment, and outside the fragment of `xmi_roundtrip_coll`
 only through the known equivalence it states): an *empty string* element of a `StringArray` feature is read back from
 XMI as `None`, so the comparable text changes from `''` to `'<NULL>'` across `load_cas_from_xmi(cas.to_xmi())`
-(`cx_strarray_empty` in the check file; replayed on `/repo`).
+(`cx_strarray_empty` in the check file; replayed on `/repo`).  `Properties/C20IsoColl.lean` extends the XMI corollary to the
+whole format (`render_xmi_roundtrip_coll`) with this and two more hypotheses, each forced by a counterexample.
 -/
 import CassisModel.Proofs.ComparableIso
 import CassisModel.Proofs.ComparableIsoXmi
